@@ -109,7 +109,7 @@ func (o Options) Len() int {
 	length := 0
 
 	for _, v := range o {
-		length += 2 + 2 + len(v.value)
+		length += 2 + 2 + int(v.length) // what Serialize emits: the 16-bit length, not len(value), counts
 	}
 
 	return length
